@@ -206,10 +206,198 @@ def claim_datum_list_iter(cx, res, kf):
         res.vacuity.append(("ListIter::next from state %s" % k, n > 0))
 
 
+def claim_datum_constructors(cx, res, kf):
+    """The four Datum constructors pair a value with span information of the SAME shape (what c10_datum_list_iter assumes and
+    the accessors rely on): primitive -> Prim, vec -> Vec with the element infos, cons -> Cons over the given pair of infos,
+    quotation -> the two-element list (name quoted) with Cons(head = the shorthand's span, Cons(quoted's info, Prim))."""
+    SI = cx.enums["SpanInfo"]
+    VAL = cx.enums["Value"]
+    onm = walk_replay(res)
+    from . import c11 as C11
+    onm_spans = C11.span_replay(res)
+
+    def both(m=None):
+        r = onm(m)
+        return r if r.get("replayed") else onm_spans(m)
+
+    def explore(name):
+        fn = None
+        for n, f in cx.fns.items():
+            if "lexpr/src/datum.rs" in n and n.endswith("::" + name) and "{closure" not in n and (f.ret_ty or "").strip().endswith("Datum"):
+                fn = f
+        if fn is None:
+            raise Unsupported("Datum::%s not found" % name)
+        eng = C.make_engine(cx, [], loop_mode="cut", timeout_s=60, max_paths=2000)
+
+        def unref(st, v):
+            while isinstance(v, Ref):
+                v = eng.load(st, v.addr)
+            return v
+
+        def h_box_new(engine, st, fr, callee, argv, m):
+            n = st.notes.get("nbox", 0) + 1
+            st.notes["nbox"] = n
+            st.heap["box%d" % n] = argv[0]
+            return Agg("struct", "Box", [Agg("struct", "Unique", [Ref(("H", "box%d" % n))]), UnitV()])
+
+        def h_new_uninit(engine, st, fr, callee, argv, m):
+            st.heap["vecbox"] = Agg("struct", "MaybeUninit", [UnitV(), Agg("struct", "ManuallyDrop", [Agg("struct", "MaybeDangling", [Blob("uninit")])])])
+            return Agg("struct", "Box", [Agg("struct", "Unique", [Ref(("H", "vecbox"))]), UnitV()])
+
+        def h_assume_init(engine, st, fr, callee, argv, m):
+            arr = st.heap["vecbox"].fields[1].fields[0].fields[0]
+            return Opaque("Vec<Value>", "vec", {"items": tuple(arr.fields) if isinstance(arr, Agg) else ("?",)})
+
+        def h_list(engine, st, fr, callee, argv, m):
+            v = unref(st, argv[0])
+            return Opaque("Value", "list", {"items": v.attrs.get("items") if isinstance(v, Opaque) else None})
+
+        def h_symbol(engine, st, fr, callee, argv, m):
+            return Opaque("Value", "symbol", {"name": unref(st, argv[0])})
+
+        def h_span_new(engine, st, fr, callee, argv, m):
+            return Agg("struct", "Span", [argv[0], argv[1]])
+
+        def h_into_box(engine, st, fr, callee, argv, m):
+            return Opaque("Box<[Value]>", "boxed elements", {"of": unref(st, argv[0])})
+        eng.stubs = [
+            (re.compile(r"^Box::<\[SpanInfo; 2\]>::new$"), h_box_new),
+            (re.compile(r"^Box::<\[Value; 2\]>::new_uninit$"), h_new_uninit),
+            (re.compile(r"box_assume_init_into_vec_unsafe"), h_assume_init),
+            (re.compile(r"^Value::list::<"), h_list), (re.compile(r"^Value::symbol::<"), h_symbol),
+            (re.compile(r"^(?:datum::)?Span::new$"), h_span_new),
+            (re.compile(r"^<Vec<Value> as Into<Box<\[Value\]>>>::into$"), h_into_box),
+        ] + S.COMBINATOR_STUBS + S.CORE_STUBS
+        return eng, fn, unref
+
+    def pos(label):
+        return Agg("struct", "Position", [Int(z3.BitVec(label + "_line", 64), "usize"), Int(z3.BitVec(label + "_col", 64), "usize")])
+
+    def same_pos(a, b):
+        return z3.And(a.fields[0].e == b.fields[0].e, a.fields[1].e == b.fields[1].e)
+
+    def info_kind(v):
+        return SI[K.concrete(v.discr)] if isinstance(v, EnumV) and K.concrete(v.discr) is not None else None
+    done = 0
+    # ---- primitive / vec / cons
+    for name in ("primitive", "vec", "cons"):
+        eng, fn, unref = explore(name)
+        args = {}
+
+        def init(e, st, fr, name=name, fn=fn):
+            a = list(fn.args)
+            if name == "primitive":
+                vals = [Opaque("Value", "the value", {}), pos("s"), pos("e")]
+            elif name == "vec":
+                vals = [Opaque("Vec<Value>", "elements", {"items": ("els",)}), Opaque("Vec<SpanInfo>", "element infos", {}), pos("s"), pos("e")]
+            else:
+                vals = [Opaque("Cons", "the cell", {}), Agg("array", "[SpanInfo; 2]", [Opaque("SpanInfo", "car info", {}), Opaque("SpanInfo", "cdr info", {})]), pos("s"), pos("e")]
+            for x, v in zip(a, vals):
+                fr.locals[x] = v
+            args["v"] = vals
+            return []
+        terms = eng.explore(fn.name, init)
+        res.absorb(eng)
+        for t in terms:
+            st = t.state
+            pc = list(st.pc)
+            if t.kind != "RETURN" or not isinstance(t.value, Agg):
+                res.must_be_unsat(pc, "Datum::%s does not return a datum" % name, both)
+                continue
+            done += 1
+            value, inf = t.value.fields[0], t.value.fields[1]
+            vals = args["v"]
+            want_kind = {"primitive": "Prim", "vec": "Vec", "cons": "Cons"}[name]
+            if info_kind(inf) != want_kind:
+                res.must_be_unsat(pc, "Datum::%s attaches %s span information" % (name, info_kind(inf)), both)
+                continue
+            pay = inf.variants[K.concrete(inf.discr)]
+            sp = pay[0]
+            s_, e_ = vals[-2], vals[-1]
+            if not (isinstance(sp, Agg) and len(sp.fields) == 2):
+                res.must_be_unsat(pc, "Datum::%s: span is not built from the given positions" % name, both)
+            else:
+                res.must_be_unsat(pc + [z3.Not(z3.And(same_pos(sp.fields[0], s_), same_pos(sp.fields[1], e_)))], "Datum::%s: span is not (start, end) as given" % name, both)
+            if name == "primitive":
+                ok = isinstance(value, Opaque) and value.label == "the value"
+            elif name == "vec":
+                ok = isinstance(value, EnumV) and K.concrete(value.discr) == VAL.index("Vector") and isinstance(pay[1], Opaque) and pay[1].label == "element infos"
+                bx = value.variants.get(VAL.index("Vector"), [None])[0] if isinstance(value, EnumV) else None
+                ok = ok and isinstance(bx, Opaque) and isinstance(bx.attrs.get("of"), Opaque) and bx.attrs["of"].label == "elements"
+            else:
+                ok = isinstance(value, EnumV) and K.concrete(value.discr) == VAL.index("Cons")
+                cell = value.variants.get(VAL.index("Cons"), [None])[0] if isinstance(value, EnumV) else None
+                arr = unref(st, pay[1].fields[0].fields[0]) if isinstance(pay[1], Agg) else None
+                ok = ok and isinstance(cell, Opaque) and cell.label == "the cell" and isinstance(arr, Agg) and \
+                    [getattr(x, "label", None) for x in arr.fields] == ["car info", "cdr info"]
+            if not ok:
+                res.must_be_unsat(pc, "Datum::%s does not pair the given value with the given span information in order" % name, both)
+    # ---- quotation
+    eng, fn, unref = explore("quotation")
+    qa = {}
+
+    def init_q(e, st, fr):
+        qspan = Agg("struct", "Span", [pos("qs"), pos("qe")])
+        inner_span = Agg("struct", "Span", [pos("is"), pos("ie")])
+        kd = z3.BitVec("quoted_info_kind", 64)
+        st.heap["qbox"] = Agg("array", "[SpanInfo; 2]", [Blob("a"), Blob("b")])
+        qinfo = EnumV("SpanInfo", kd, {SI.index("Prim"): [inner_span], SI.index("Cons"): [inner_span, Blob("box")], SI.index("Vec"): [inner_span, Blob("els")]})
+        quoted = Agg("struct", "Datum", [Opaque("Value", "quoted value", {}), qinfo])
+        vals = [Opaque("&str", "name", {}), quoted, qspan]
+        for x, v in zip(fn.args, vals):
+            fr.locals[x] = v
+        qa.update(qspan=qspan, inner=inner_span, qinfo=qinfo)
+        return [z3.ULT(kd, bv(len(SI)))]
+    terms = eng.explore(fn.name, init_q)
+    res.absorb(eng)
+    for t in terms:
+        st = t.state
+        pc = list(st.pc)
+        if t.kind != "RETURN" or not isinstance(t.value, Agg):
+            res.must_be_unsat(pc, "Datum::quotation does not return a datum (%s)" % t.kind, both)
+            continue
+        done += 1
+        value, inf = t.value.fields[0], t.value.fields[1]
+        items = value.attrs.get("items") if isinstance(value, Opaque) and value.label == "list" else None
+        okv = items is not None and len(items) == 2 and isinstance(items[0], Opaque) and items[0].label == "symbol" and \
+            getattr(items[0].attrs.get("name"), "label", None) == "name" and isinstance(items[1], Opaque) and items[1].label == "quoted value"
+        if not okv:
+            res.must_be_unsat(pc, "Datum::quotation: the value is not the two-element list (name quoted)", both)
+            continue
+        if info_kind(inf) != "Cons":
+            res.must_be_unsat(pc, "Datum::quotation: span information is not a list node", both)
+            continue
+        sp, bx = inf.variants[SI.index("Cons")]
+        outer = unref(st, bx.fields[0].fields[0])
+        head, rest = outer.fields[0], outer.fields[1]
+        if not (info_kind(head) == "Prim" and info_kind(rest) == "Cons"):
+            res.must_be_unsat(pc, "Datum::quotation: span information is not shaped like (head . (quoted . ()))", both)
+            continue
+        rsp, rbx = rest.variants[SI.index("Cons")]
+        inner = unref(st, rbx.fields[0].fields[0])
+        second, tail = inner.fields[0], inner.fields[1]
+        shape_ok = isinstance(second, EnumV) and second.discr is qa["qinfo"].discr or (isinstance(second, EnumV) and z3.eq(second.discr, qa["qinfo"].discr))
+        if not (shape_ok and info_kind(tail) == "Prim"):
+            res.must_be_unsat(pc, "Datum::quotation: the second element does not carry the quoted datum's own span information / tail is not a leaf", both)
+            continue
+        hsp = head.variants[SI.index("Prim")][0]
+        q, i_ = qa["qspan"], qa["inner"]
+        conds = [same_pos(hsp.fields[0], q.fields[0]), same_pos(hsp.fields[1], q.fields[1]),         # head = the shorthand characters
+                 same_pos(sp.fields[0], q.fields[0]), same_pos(sp.fields[1], i_.fields[1]),           # whole = shorthand start .. quoted end
+                 same_pos(rsp.fields[0], i_.fields[0]), same_pos(rsp.fields[1], i_.fields[1])]        # rest cell = the quoted datum's span
+        res.must_be_unsat(pc + [z3.Not(z3.And(*conds))], "Datum::quotation: spans are not (whole = shorthand start..quoted end, head = shorthand, rest = quoted datum)", both)
+    res.vacuity.append(("datum constructors evaluated", done >= 4))
+
+
 CLAIMS = [
     Claim("c10_datum_list_iter", "C10", "quick", claim_datum_list_iter,
           "one step of the datum list iterator from any cursor state over an abstract cell: yields the car with the car's span, "
           "then continues with the cdr's cell (pair), ends (empty list) or pauses with None and yields the tail once (anything "
           "else, #nil included) - the structure the value's own accessors expose; no panic on span information shaped by the builders",
           "arbitrary car / cdr kinds, all 4 cursor states (one-step induction over any list length)", configs=("fast",)),
+    Claim("c10_datum_constructors", "C10", "quick", claim_datum_constructors,
+          "Datum::primitive / vec / cons / quotation pair the given value with span information of the same shape and the given "
+          "positions: Prim; Vec with the element infos; Cons over the given (car, cdr) infos; for quote shorthands the list "
+          "(name quoted) with head span = the shorthand, rest = the quoted datum's info, whole = shorthand start .. quoted end",
+          "arbitrary positions and quoted-datum kinds", configs=("fast",), also=("C11",)),
 ]
